@@ -19,8 +19,10 @@ def FloatCore (t : List Char) : Prop :=
 /-- the documented float format: `ws* [+-]? (d+ ('.' d*)? | '.' d+) ([eE][+-]?d+)? ws*` -/
 def FloatLang (s : List Char) : Prop :=
   ∃ ws1 t ws2, s = ws1 ++ (t ++ ws2) ∧ AllSpace ws1 ∧ AllSpace ws2 ∧ FloatCore t
-/-- `ws* [+-]? d* ws*`, not blank (what IsInteger accepts: NB a lone sign is in the language) -/
-def IntLang (s : List Char) : Prop :=
+/-- `ws* [+-]? d* ws*`, not blank: the language of IsInteger WITHOUT the guard after the sign (a lone sign is
+    in it).  The exact language for the current source (`Gkf.intLoneSignRejected`) is `IntLang` in
+    Lemmas/LiteralsComplete.lean. -/
+def IntLangLoose (s : List Char) : Prop :=
   ∃ ws1 sg ds ws2, s = ws1 ++ (sg ++ ds ++ ws2) ∧ AllSpace ws1 ∧ AllSpace ws2 ∧ SignOpt sg ∧ AllDigit ds ∧
     sg ++ ds ≠ []
 /-- `ws* d+ ws*` with value `v` -/
@@ -189,7 +191,7 @@ theorem allDigits_sound (l : List Char) (h : allDigits l = true) : AllDigit l :=
     | tail _ hx => exact ih h.2 x hx
 
 /-- every string accepted by `IsInteger` is `ws* [+-]? d* ws*` and not blank -/
-theorem isInteger_sound (s : List Char) (h : isInteger s = true) : IntLang s := by
+theorem isInteger_sound (s : List Char) (h : isInteger s = true) : IntLangLoose s := by
   obtain ⟨ws1, ws2, h1, a1, a2⟩ := trim_decomp s
   unfold isInteger at h
   split at h
